@@ -151,6 +151,8 @@ class Printer:
         self.renamed = {}               # decl id -> printed name, for parameters whose C++ name repeats (expanded packs)
         self.loop_bounds = {}           # loop ordinal -> printed bound expression of the loop condition (NV_LOOPBOUND_<c_name>_<k>)
         self.auto_loops = {}            # loop ordinal -> default contract of a canonical counting loop (NV_AUTOLOOP_<c_name>_<k>)
+        self.try_stack = []             # enclosing try blocks: (handler label, scope depth at the try) -- see stmt1 CXXTryStmt
+        self.tries = 0
         self.loop_counters = {}         # loop ordinal -> printed name of the loop's counter variable (NV_LOOPVAR_<c_name>_<k>)
         self.tu = None                  # translation unit of the function (set by core.Fn.emit): where unmapped /repo helpers are looked up
         self.auto_fns = {}              # (name, function type) -> C name of an auto-extracted helper (shared with nested printers)
@@ -262,7 +264,7 @@ class Printer:
             text = text[2:-1]
             c += '*'
         self.hoisted.append(f'{c} {t} = {text};')
-        self.hoisted.append(f'if (nv_thrown) return {self.default_value(self.ret_ctype)};')
+        self.hoisted.append(f'if (nv_thrown) {self.exc_exit()}')
         return f'(*{t})' if byref else t
 
     def apply_plain(self, mapping, args, selfexpr=None, node=None, key='', noted=False, objnode=None):
@@ -784,18 +786,53 @@ class Printer:
                 self.scopes[-1].append((v['name'], m))
                 return
 
+    def exc_exit(self):
+        """where control goes when an exception is in flight (nv_thrown set): out of the function, or -- inside a try block -- to
+        the handler of the innermost enclosing try"""
+        if self.try_stack:
+            return f'goto {self.try_stack[-1][0]};'
+        return f'return {self.default_value(self.ret_ctype)};'
+
+    def exc_depth(self):
+        return self.try_stack[-1][1] if self.try_stack else 0
+
+    def try_stmt(self, n, ind):
+        """try { B } catch (...) { H }  (one handler that catches everything: `catch (...)`):
+              { B'  goto nv_try_end_k;  nv_handler_k: nv_thrown = 0; { H }  nv_try_end_k: ; }
+        B' = B with every exception exit (`throw`, critical(), `if (nv_thrown) ..` after a may-throw callee) jumping to
+        nv_handler_k instead of leaving the function (RAII locals of the scopes opened inside the try are destroyed first).  The
+        handler runs with the flag cleared; `throw;` inside it sets the flag again and leaves through the enclosing exit.
+        Sound for the callees the spec marks may-throw ('!'): an unmarked callee is assumed not to throw, as everywhere else."""
+        p = '  ' * ind
+        inner = n.get('inner', [])
+        if len(inner) != 2 or inner[1].get('kind') != 'CXXCatchStmt':
+            raise Unsupported(f'try with {len(inner) - 1} handlers (target {self.cname})')
+        h = [c for c in inner[1].get('inner', []) if c.get('kind') == 'CompoundStmt']
+        decl = [c for c in inner[1].get('inner', []) if c.get('kind') == 'VarDecl']
+        if decl or len(h) != 1:
+            raise Unsupported(f'catch handler that is not `catch (...)` (target {self.cname})')
+        self.tries += 1
+        k = self.tries
+        self.note(f'try / catch (...) -> nv_handler_{k}')
+        self.may_throw_in_try = True
+        self.try_stack.append((f'nv_handler_{k}', len(self.scopes)))
+        body = self.block(inner[0], ind + 1)
+        self.try_stack.pop()
+        hb = self.block(h[0], ind + 1)
+        return (f'{p}{{\n{body}{p}  goto nv_try_end_{k};\n{p}  nv_handler_{k}: nv_thrown = 0;\n{hb}{p}  nv_try_end_{k}: ;\n{p}}}\n')
+
     def throw_stmt(self, p):
         self.may_throw = True
-        if any(self.scopes):
-            return f'{p}{{ nv_thrown = 1;\n{self.unwind(0, p + "  ")}{p}  return {self.default_value(self.ret_ctype)}; }}\n'
-        return f'{p}{{ nv_thrown = 1; return {self.default_value(self.ret_ctype)}; }}\n'
+        if any(self.scopes[self.exc_depth():]):
+            return f'{p}{{ nv_thrown = 1;\n{self.unwind(self.exc_depth(), p + "  ")}{p}  {self.exc_exit()} }}\n'
+        return f'{p}{{ nv_thrown = 1; {self.exc_exit()} }}\n'
 
     def after(self, p):
         if getattr(self, 'pending_throw', False):
             self.pending_throw = False
-            if any(self.scopes):
-                return f'{p}if (nv_thrown)\n{p}{{\n{self.unwind(0, p + "  ")}{p}  return {self.default_value(self.ret_ctype)};\n{p}}}\n'
-            return f'{p}if (nv_thrown) return {self.default_value(self.ret_ctype)};\n'
+            if any(self.scopes[self.exc_depth():]):
+                return f'{p}if (nv_thrown)\n{p}{{\n{self.unwind(self.exc_depth(), p + "  ")}{p}  {self.exc_exit()}\n{p}}}\n'
+            return f'{p}if (nv_thrown) {self.exc_exit()}\n'
         return ''
 
     def vardecl(self, v, p):
@@ -1089,7 +1126,7 @@ class Printer:
                 self.pending_throw = False
                 self.tmp += 1
                 t = f'nv_cond{self.tmp}'
-                hoist = f'{p}_Bool {t} = {ce};\n{p}if (nv_thrown) return {self.default_value(self.ret_ctype)};\n'
+                hoist = f'{p}_Bool {t} = {ce};\n{p}if (nv_thrown) {self.exc_exit()}\n'
                 ce = t
             s = f'{p}if ({ce})\n' + self.block(parts[1], ind)
             if len(parts) > 2:
@@ -1131,6 +1168,8 @@ class Printer:
             self.loop_scope.pop()
             return s
         if k == 'ReturnStmt':
+            if self.try_stack:
+                raise Unsupported(f'return inside a try block (target {self.cname})')
             if not inner:
                 return self.unwind(0, p) + f'{p}return;\n'
             # a function returning a reference returns the address of the denoted object (references print as pointers)
@@ -1183,7 +1222,9 @@ class Printer:
             return self.range_for(n, ind)
         if k in ('ExprWithCleanups',) and inner and inner[0].get('kind') == 'CXXThrowExpr':
             return self.throw_stmt(p)
-        if k in ('CXXTryStmt', 'CXXCatchStmt', 'GotoStmt', 'LabelStmt', 'LambdaExpr'):
+        if k == 'CXXTryStmt':
+            return self.try_stmt(n, ind)
+        if k in ('CXXCatchStmt', 'GotoStmt', 'LabelStmt', 'LambdaExpr'):
             raise Unsupported(f'statement kind {k} (target {self.cname})')
         # expression statement
         self.always_throws = False
